@@ -131,6 +131,7 @@ func main() {
 	verbose := fs.Bool("v", false, "verbose")
 	dump := fs.Bool("dump", false, "keep SMT files and print their location")
 	tmo := fs.Int("timeout", 0, "per-obligation timeout in seconds")
+	noev := fs.Bool("noevidence", false, "do not write evidence / replay files (selftests against scratch copies)")
 	var pos []string
 	args := os.Args[2:]
 	for len(args) > 0 {
@@ -154,6 +155,7 @@ func main() {
 			fmt.Fprintln(os.Stderr, "check needs exactly one property id")
 			os.Exit(2)
 		}
+		noEvidence = *noev
 		os.Exit(runCheck(pos[0], *tier, *repo, *verif, *verbose, *tmo))
 	case "func":
 		os.Exit(runFuncs(pos, *repo, *verif, *verbose, *dump, *tmo))
@@ -182,6 +184,8 @@ func main() {
 		os.Exit(2)
 	}
 }
+
+var noEvidence bool
 
 func scratchDir() string {
 	d, err := os.MkdirTemp("", "csvqvc-")
@@ -463,6 +467,9 @@ func runCheck(prop, tier, repo, verif string, verbose bool, tmo int) int {
 		// violation
 		violations++
 		exit = 1
+		if noEvidence {
+			replayDir = filepath.Join(dir, "replays")
+		}
 		os.MkdirAll(replayDir, 0o755)
 		rp := filepath.Join(replayDir, sanitizeFile(r.o.Name)+".json")
 		script, _ := eng.script(r.o, true)
@@ -513,7 +520,9 @@ func runCheck(prop, tier, repo, verif string, verbose bool, tmo int) int {
 		// a claimed contract no longer binds: not a solver verdict; report loudly, fail the machinery check
 		exit = 2
 	}
-	writeEvidence(eng, pr, prop, tier, verif, discharged, failedUnclaimed, knownHit, lost, samples, byBackend, violations, time.Since(start).Seconds())
+	if !noEvidence {
+		writeEvidence(eng, pr, prop, tier, verif, discharged, failedUnclaimed, knownHit, lost, samples, byBackend, violations, time.Since(start).Seconds())
+	}
 	fmt.Printf("property %s: %d obligations, %d discharged, %d known findings, %d unclaimed-unproved, %d violations (%.1fs)\n",
 		prop, len(pr.results), len(discharged), len(knownHit), len(failedUnclaimed), violations, time.Since(start).Seconds())
 	return exit
